@@ -15,7 +15,7 @@ func init() {
 	Register(&PropDef{
 		ID: "C07", Title: "AKE completes on a reliable network",
 		Config: c07Config, Run: c07Run, MaxSteps: 400,
-		Rule: "runs = start pattern (A, B or both; trigger kind query / whitespace tag / error restart / Send under require-encryption; fresh or refresh of an existing session) x policy pair sharing a version x PRNG-chosen interleaving of the two FIFO queues with ticks; " +
+		Rule: "runs = start pattern (A, B or both; trigger kind query / whitespace tag / error restart / Send under require-encryption; fresh, refresh of a running session, or after an earlier session was ended by one or both users) x policy pair sharing a version x PRNG-chosen interleaving of the two FIFO queues with ticks; " +
 			"non-trivial = at least 4 AKE deliveries happened; distinct = distinct (policies, triggers, delivery order) signatures",
 		Assume: []string{"links are reliable FIFO", "a trigger that reaches a party within 60 s of its last AKE state change is ignored by design and carries no liveness obligation (triggers are issued outside that window)"},
 	})
@@ -26,8 +26,13 @@ func c07Config(rc *RunCtx) {
 	vs := [][2]int{{PolV3, PolV3}, {PolV2, PolV2}, {PolV2 | PolV3, PolV2 | PolV3}, {PolV2 | PolV3, PolV2}, {PolV3, PolV2 | PolV3}, {PolV2, PolV2 | PolV3}, {PolV2 | PolV3, PolV3}}
 	v := vs[r.Intn(len(vs))]
 	who := r.Intn(3) // 0 A, 1 B, 2 both
+	// prior history: 0 none, 1 a session is running (refresh), 2 a session existed and was ended
+	rc.Cfg["refresh"] = []int{0, 0, 0, 0, 1, 1, 2, 2}[r.Intn(8)]
+	rc.Cfg["ender"], rc.Cfg["bothend"] = r.Intn(2), r.Intn(2)
+	if rc.Cfg["refresh"] == 2 && who == 2 {
+		who = r.Intn(2) // one starter (crossing starts are the known collision finding, whatever came before)
+	}
 	rc.Cfg["who"] = who
-	rc.Cfg["refresh"] = r.Intn(4) / 3
 	pol := [2]int{v[0], v[1]}
 	for s := 0; s < 2; s++ {
 		if who != 2 && who != s {
@@ -37,6 +42,9 @@ func c07Config(rc *RunCtx) {
 		k := r.Intn(4)
 		if rc.Cfg["refresh"] == 1 {
 			k = []int{0, 2}[r.Intn(2)] // while encrypted a Send is encrypted traffic, not a start
+		}
+		if rc.Cfg["refresh"] == 2 && s != rc.Cfg["ender"] && rc.Cfg["bothend"] == 0 {
+			k = 0 // this side still shows the finished session: Send refuses there, a query is the way out
 		}
 		rc.Cfg[fmt.Sprintf("trig%d", s)] = k
 		switch k {
@@ -79,6 +87,31 @@ func c07Run(rc *RunCtx) *Violation {
 		w.Drain(10000)
 		w.Tick(tickDur[4])
 		w.Got[0], w.Got[1] = nil, nil
+	}
+	if rc.Cfg["refresh"] == 2 {
+		// a session that existed and was ended: by one side (the other is left in the finished
+		// state) or by both users
+		if !w.Handshake(0) {
+			return rc.Viol("setup.handshake", "initial query-initiated AKE did not complete", nil)
+		}
+		for i := 0; i < 2; i++ {
+			r := w.P[i].Send(w.GenText(w.P[i], 2, 0))
+			w.Enqueue(w.P[i], r)
+		}
+		w.Drain(10000)
+		e := w.P[rc.Cfg["ender"]%2]
+		r := e.End()
+		w.Enqueue(e, r)
+		w.Drain(10000)
+		if rc.Cfg["bothend"] == 1 {
+			q := w.P[1-e.Idx]
+			r = q.End()
+			w.Enqueue(q, r)
+			w.Drain(10000)
+		}
+		w.Tick(tickDur[4])
+		w.Got[0], w.Got[1] = nil, nil
+		w.Fault("earlier-session-ended")
 	}
 	preEnc := [2]bool{w.P[0].Conv.IsEncrypted(), w.P[1].Conv.IsEncrypted()}
 	akeDeliveries := 0
